@@ -10,14 +10,14 @@ Outcome == [kind : {"ok","fail"}, d : Durs] \cup {[kind |-> "hang", d |-> 0], [k
 VARIABLES n, oc, K, cancelAt,            \* scenario
           now, pcancel, done,
           fpc, fi, ftimer, tclosed,
-          wpc, wt, wstart,
+          wpc, wt, wstart, wlive, doneAt,
           eclosed,
           mpc, errs, result,
           cstat,                        \* per-target conn status
           startedLive, lastStartIdx, orderOK, earlyFeeds, lateCancelledOK, lastFailSeen, lastFeed
 
 scen == <<n, oc, K, cancelAt>>
-vars == <<n, oc, K, cancelAt, now, pcancel, done, fpc, fi, ftimer, tclosed, wpc, wt, wstart, eclosed, mpc, errs, result, cstat,
+vars == <<n, oc, K, cancelAt, now, pcancel, done, fpc, fi, ftimer, tclosed, wpc, wt, wstart, wlive, doneAt, eclosed, mpc, errs, result, cstat,
           startedLive, lastStartIdx, orderOK, earlyFeeds, lateCancelledOK, lastFailSeen, lastFeed>>
 
 W == 1..MaxK
@@ -27,7 +27,7 @@ InitRest ==
   /\ now = 0 /\ pcancel = FALSE /\ done = FALSE
   /\ fpc = "next" /\ fi = 1 /\ ftimer = 0 /\ tclosed = FALSE
   /\ wpc = [w \in W |-> IF w <= K THEN "idle" ELSE "off"]
-  /\ wt = [w \in W |-> 0] /\ wstart = [w \in W |-> 0]
+  /\ wt = [w \in W |-> 0] /\ wstart = [w \in W |-> 0] /\ wlive = [w \in W |-> TRUE] /\ doneAt = -1
   /\ eclosed = FALSE
   /\ mpc = "select" /\ errs = 0 /\ result = "none"
   /\ cstat = [i \in 1..n |-> "none"]
@@ -41,7 +41,9 @@ Init ==
   /\ cancelAt \in CancelTimes \cup {NoCancel}
   /\ InitRest
 
-UNCH_SCEN == UNCHANGED scen
+UNCH_SCEN == UNCHANGED scen /\ UNCHANGED <<wlive, doneAt>>
+\* for the steps that end the Dial context: remember the instant
+UNCH_SCEN_D == UNCHANGED scen /\ UNCHANGED wlive /\ doneAt' = (IF done THEN doneAt ELSE now)
 UNCH_MON == UNCHANGED <<startedLive, lastStartIdx, orderOK, earlyFeeds, lateCancelledOK, lastFailSeen, lastFeed>>
 
 \* ---------------- feeder ----------------
@@ -72,8 +74,17 @@ WorkerExit(w) ==
   /\ wpc' = [wpc EXCEPT ![w] = "done"]
   /\ UNCHANGED <<now, pcancel, done, fpc, fi, ftimer, tclosed, wt, wstart, eclosed, mpc, errs, result, cstat>> /\ UNCH_SCEN /\ UNCH_MON
 
+\* the per-attempt context is derived from the Dial context (dial.go:248); it is live iff the Dial context still is.
+\* (Cancellation reaches derived contexts one after the other: an attempt whose context existed before the Dial
+\* context ended may still read it as live for the rest of that instant.)
+WorkerCtx(w) ==
+  /\ wpc[w] = "got" /\ oc[wt[w]].kind # "rerr"
+  /\ wpc' = [wpc EXCEPT ![w] = "ctx"] /\ wlive' = [wlive EXCEPT ![w] = ~done]
+  /\ UNCHANGED <<now, pcancel, done, fpc, fi, ftimer, tclosed, wt, wstart, eclosed, mpc, errs, result, cstat, doneAt>> /\ UNCHANGED scen /\ UNCH_MON
+
 WorkerStart(w) ==
-  /\ wpc[w] = "got"
+  /\ wpc[w] \in {"got", "ctx"}
+  /\ wpc[w] = (IF oc[wt[w]].kind = "rerr" THEN "got" ELSE "ctx")
   /\ LET i == wt[w] IN
      IF oc[i].kind = "rerr"
      THEN /\ wpc' = [wpc EXCEPT ![w] = "senderr"] /\ UNCHANGED wstart /\ UNCH_MON
@@ -114,7 +125,7 @@ SendConnRecv(w) ==
 CollectorRet ==
   /\ mpc = "gotconn"
   /\ mpc' = "ret" /\ done' = TRUE
-  /\ UNCHANGED <<now, pcancel, fpc, fi, ftimer, tclosed, wpc, wt, wstart, eclosed, errs, result, cstat>> /\ UNCH_SCEN /\ UNCH_MON
+  /\ UNCHANGED <<now, pcancel, fpc, fi, ftimer, tclosed, wpc, wt, wstart, eclosed, errs, result, cstat>> /\ UNCH_SCEN_D /\ UNCH_MON
 
 SendErrDrop(w) ==
   /\ wpc[w] = "senderr" /\ done
@@ -142,21 +153,21 @@ CollectorWake ==
 CollectorCtx ==
   /\ mpc = "select" /\ pcancel
   /\ mpc' = "ret" /\ result' = "ctxerr" /\ done' = TRUE
-  /\ UNCHANGED <<now, pcancel, fpc, fi, ftimer, tclosed, wpc, wt, wstart, eclosed, errs, cstat>> /\ UNCH_SCEN /\ UNCH_MON
+  /\ UNCHANGED <<now, pcancel, fpc, fi, ftimer, tclosed, wpc, wt, wstart, eclosed, errs, cstat>> /\ UNCH_SCEN_D /\ UNCH_MON
 
 CollectorClosed ==
   /\ mpc = "select" /\ eclosed
   /\ mpc' = "ret" /\ result' = (IF errs = 0 THEN "noaddr" ELSE "joined") /\ done' = TRUE
-  /\ UNCHANGED <<now, pcancel, fpc, fi, ftimer, tclosed, wpc, wt, wstart, eclosed, errs, cstat>> /\ UNCH_SCEN /\ UNCH_MON
+  /\ UNCHANGED <<now, pcancel, fpc, fi, ftimer, tclosed, wpc, wt, wstart, eclosed, errs, cstat>> /\ UNCH_SCEN_D /\ UNCH_MON
 
 CallerCancel ==
   /\ cancelAt # NoCancel /\ ~pcancel /\ now = cancelAt
   /\ pcancel' = TRUE /\ done' = TRUE
-  /\ UNCHANGED <<now, fpc, fi, ftimer, tclosed, wpc, wt, wstart, eclosed, mpc, errs, result, cstat>> /\ UNCH_SCEN /\ UNCH_MON
+  /\ UNCHANGED <<now, fpc, fi, ftimer, tclosed, wpc, wt, wstart, eclosed, mpc, errs, result, cstat>> /\ UNCH_SCEN_D /\ UNCH_MON
 
 Immediate ==
   \/ FeederNext \/ FeederWaitOver \/ Closer \/ CollectorWake \/ CollectorCtx \/ CollectorClosed \/ CollectorRet \/ CallerCancel
-  \/ \E w \in Workers : FeedSend(w) \/ WorkerExit(w) \/ WorkerStart(w) \/ EndOutcome(w) \/ EndCtx(w)
+  \/ \E w \in Workers : FeedSend(w) \/ WorkerExit(w) \/ WorkerCtx(w) \/ WorkerStart(w) \/ EndOutcome(w) \/ EndCtx(w)
                         \/ SendConnDrop(w) \/ SendConnRecv(w) \/ SendErrDrop(w) \/ SendErrRecv(w)
 
 Deadlines ==
